@@ -219,6 +219,8 @@ fn uses_for(defs: &[Macro]) -> Vec<String> {
                 v.push(format!("{0}({0}({0}(1)))", f.name));
                 v.push(format!("{0}(1)+{0}(2)", f.name));
                 v.push(format!("{0}( 1 )", f.name));
+                v.push(format!("{0} (1)", f.name));
+                v.push(format!("{0}\t( 2 )+{0} ({0}  (1))", f.name));
                 for g in &fns {
                     if g.name != f.name && g.params.as_ref().unwrap().len() == 1 {
                         v.push(format!("{}({}(1))", f.name, g.name));
@@ -490,7 +492,7 @@ impl Check for C08 {
         "exploration"
     }
     fn rule(&self) -> String {
-        "Definition sets (20: object-like with literal/expression body, chains of bodies using earlier macros, names that are prefixes/suffixes of each other, function-like with 0..3 parameters, bodies using a parameter twice / dropping / swapping parameters, a parameter named like another macro) x every use site of a generated list (next to each operator class, twice on a line, arguments with 0..4 levels of nested parentheses, nested and chained macro calls, spaces inside the call) x delivery by #define or by -D NAME=VALUE; plus uses inside longer identifiers and inside a string literal; plus blocks of 0/1/96..102/198..201/205 filler macros before, between and after the definitions (RegexSet roll-over at 100) with uses of the macros around the roll-over; plus #undef of each macro and of filler macros. Oracle: a token-based reference expander (whole-identifier match, positional substitution, bodies written with previously defined macros only) gives the expected text of 'const short r = <use>;', compared with CompilerState.preprocessed_utf8 modulo white space, and the expected value of r (reference evaluation); -D delivery must give the same declarations as #define. Non-trivial = accepted; distinct outcomes = distinct values of r.".into()
+        "Definition sets (20: object-like with literal/expression body, chains of bodies using earlier macros, names that are prefixes/suffixes of each other, function-like with 0..3 parameters, bodies using a parameter twice / dropping / swapping parameters, a parameter named like another macro) x every use site of a generated list (next to each operator class, twice on a line, arguments with 0..4 levels of nested parentheses, nested and chained macro calls, spaces inside the call and between the macro name and its parenthesis) x delivery by #define or by -D NAME=VALUE; plus uses inside longer identifiers and inside a string literal; plus blocks of 0/1/96..102/198..201/205 filler macros before, between and after the definitions (RegexSet roll-over at 100) with uses of the macros around the roll-over; plus #undef of each macro and of filler macros. Oracle: a token-based reference expander (whole-identifier match, positional substitution, bodies written with previously defined macros only) gives the expected text of 'const short r = <use>;', compared with CompilerState.preprocessed_utf8 modulo white space, and the expected value of r (reference evaluation); -D delivery must give the same declarations as #define. Non-trivial = accepted; distinct outcomes = distinct values of r.".into()
     }
     fn assumptions(&self) -> Vec<String> {
         vec!["accidental token pasting by removed white space is not judged (comparison modulo white space)".into(), "## pasting, a macro name followed by white space before '(', and bodies that use later-defined macros are outside the alphabet".into()]
